@@ -681,6 +681,7 @@ class SharesManager(BaseManager):
 
         # First round using the term map
         include_terms = []
+        wildcard_items: list[set[SharedItem]] = []
         for term in search_query.include_terms:
             subterms = re.split(_QUERY_CLEAN_PATTERN, term)
             for subterm in subterms:
@@ -707,16 +708,19 @@ class SharesManager(BaseManager):
                     if not matching_terms:  # Optimization
                         return [], []
 
-                    include_terms.extend(matching_terms)
+                    # Any of the terms ending with the subterm can match
+                    wildcard_items.append(
+                        set().union(*(self._term_map[map_term] for map_term in matching_terms))
+                    )
                 else:
                     if subterm not in self._term_map:  # Optimization
                         return [], []
 
                     include_terms.append(subterm)
 
-        found_items = set(self._term_map[include_terms[0]])
-        for include_term in include_terms:
-            found_items &= set(self._term_map[include_term])
+        item_sets = [set(self._term_map[include_term]) for include_term in include_terms]
+        item_sets.extend(wildcard_items)
+        found_items = set.intersection(*item_sets)
 
         # Regular expressions on the remaining items
 
